@@ -39,6 +39,9 @@ func init() {
 			redisFaultSweep(r, "[C01]", map[string]bool{"gettok": true, "getauth": true, "settok": true})
 		}
 		if r.unknownViolations() == 0 {
+			singleFaultSweep(r, "[C01]")
+		}
+		if r.unknownViolations() == 0 {
 			// a session used at one service instance, logged out at another, presented again at the first: whatever an instance
 			// remembers locally, a logged-out session is never answered OK
 			replicaLogout(r)
@@ -79,6 +82,14 @@ func init() {
 		runHistories(r, profile{Hostile: 70, Faults: 3, Attack: 8, Logout: 3, Ticks: 18, Histories: scale(r, 60, 1500), Length: 45}, histRule)
 	}
 	checks["C05"] = func(r *Run) {
+		singleFaultSweep(r, "[C05]")
+		if r.unknownViolations() == 0 {
+			cookielessCallback(r, "C05")
+		}
+		if r.unknownViolations() > 0 {
+			r.Finish("callback URLs replayed without the session cookie")
+			return
+		}
 		runHistories(r, profile{Hostile: 15, Faults: 8, Attack: 30, Logout: 12, Ticks: 10, OddRequest: true, OddConfig: true, Histories: scale(r, 60, 1500), Length: 45}, histRule)
 	}
 	checks["C11"] = func(r *Run) {
@@ -103,7 +114,10 @@ func init() {
 		runHistories(r, profile{Hostile: 30, Faults: 6, Attack: 3, Logout: 2, Ticks: 40, Histories: scale(r, 60, 1500), Length: 60}, histRule)
 	}
 	checks["C13"] = func(r *Run) {
-		overlappingLogins(r, "C13")
+		singleFaultSweep(r, "[C13]") // a redirect built on an error path must still be a redirect with its no-cache headers - or not a redirect
+		if r.unknownViolations() == 0 {
+			overlappingLogins(r, "C13")
+		}
 		if r.unknownViolations() > 0 {
 			r.Finish("logins of several browsers that overlap in time")
 			return
@@ -111,6 +125,14 @@ func init() {
 		runHistories(r, profile{Hostile: 5, Faults: 2, Attack: 6, Logout: 8, Ticks: 8, OddConfig: true, Histories: scale(r, 80, 2000), Length: 30}, histRule)
 	}
 	checks["C14"] = func(r *Run) {
+		singleFaultSweep(r, "[C14]")
+		if r.unknownViolations() == 0 {
+			systemRotation(r, "[C14]") // no client secret (current or past) in anything sent back, whatever else the Secret object holds
+		}
+		if r.unknownViolations() > 0 {
+			r.Finish("single store faults at every position of every request kind; client-secret rotation at system level")
+			return
+		}
 		wireHammer(r, "[C14]") // answers as they ARRIVE from the real gRPC server while other users' allowed requests get their tokens injected
 		if r.unknownViolations() > 0 {
 			r.Finish("logged-in and anonymous browsers asking the real gRPC server at the same time")
@@ -153,6 +175,9 @@ func init() {
 			discSweep(r, "[C09]")
 		}
 		if r.unknownViolations() == 0 {
+			singleFaultSweep(r, "[C09]")
+		}
+		if r.unknownViolations() == 0 {
 			replicaLogout(r)
 		}
 		if r.unknownViolations() == 0 {
@@ -183,6 +208,9 @@ func init() {
 		}
 		if r.unknownViolations() == 0 {
 			overlappingLogins(r, "C04")
+		}
+		if r.unknownViolations() == 0 {
+			cookielessCallback(r, "C04")
 		}
 		if r.unknownViolations() == 0 {
 			systemRotation(r, "[C04]") // a long-lived filter, the Secret rotated between the redirect and the callback
@@ -456,4 +484,124 @@ func overlappingLogins(r *Run, prop string) {
 			s.close()
 		}
 	}
+}
+
+// cookielessCallback: a login is pending; its callback URL (state and code travel through the front channel, the provider,
+// proxies and logs) is replayed WITHOUT the session cookie - by an attacker, or by a browser that lost the cookie. The
+// service must treat it as any other unauthenticated request: no exchange, no session id of the pending login.
+func cookielessCallback(r *Run, prop string) {
+	for _, store := range []string{"mem", "redis"} {
+		if r.unknownViolations() > 0 {
+			return
+		}
+		c := genCfg(r, false, 1)
+		c.Store, c.Abs, c.Idle, c.Disc = store, 0, 0, nil
+		s := newHSim(r, c)
+		c = s.w.cfg
+		gen := func() [4]string {
+			return [4]string{s.uniq("sid"), s.uniq("nonce"), s.uniq("state"), s.uniq("VERIFIER-marker")}
+		}
+		q := hReq{Scheme: "https", Host: "app.example.com", Path: "/app/private?x=1", Gen: gen(), KeysOK: true, IDP: idpAnswer{Kind: "transport"}}
+		s.do(q)
+		iss := s.issued[q.Gen[0]]
+		if iss != nil {
+			cb := mustURL(c.CallbackURI)
+			good := func() idpAnswer {
+				return idpAnswer{Kind: "body", TokenType: "Bearer", ExpiresIn: i64(3600), Access: s.uniq("ACCESS-marker"),
+					ID: mintToken(tokSpec{Mode: "good", Exp: s.w.rig.clock.Now().Unix() + 3600, Aud: c.ClientID, Nonce: iss.Nonce, Sub: "user", Extra: s.uniq("j")})}
+			}
+			for _, cookie := range []string{"", "other=1", c.cookieName() + "="} {
+				o := s.do(hReq{Scheme: cb.Scheme, Host: cb.Host, Path: cb.EscapedPath() + "?code=" + s.uniq("code") + "&state=" + iss.State, Cookie: cookie, Gen: gen(), KeysOK: true, IDP: good()})
+				if loc, _ := hdrValue(o.Resp.GetDeniedResponse().GetHeaders(), "location"); loc == iss.URL && !s.stop {
+					s.violate(prop, "a callback that carried no session cookie completed a pending login (it was answered with the redirect to that login's requested URL)", map[string]any{"cookie_header": cookie, "answer": showResp(o.Resp, o.Err)})
+				}
+			}
+			// the legitimate browser still completes its login afterwards
+			o := s.do(hReq{Scheme: cb.Scheme, Host: cb.Host, Path: cb.EscapedPath() + "?code=" + s.uniq("code") + "&state=" + iss.State, Cookie: c.cookieName() + "=" + iss.Sid, Gen: gen(), KeysOK: true, IDP: good()})
+			if loc, _ := hdrValue(o.Resp.GetDeniedResponse().GetHeaders(), "location"); loc != iss.URL && !s.stop {
+				s.violate(prop, "after cookie-less replays of its callback URL the pending login could no longer be completed by its own browser", map[string]any{"answer": showResp(o.Resp, o.Err)})
+			}
+		}
+		r.Case("cookieless-callback|" + store)
+		r.Dist["cookieless-callback"]++
+		s.close()
+	}
+}
+
+// singleFaultSweep: every kind of request (application request on a fresh session, on an expired-refreshable one, a login
+// callback, a logout, an unauthenticated request) with ONE store call failing - the first, the second, ... the sixth of
+// the check, before or after taking effect - on both stores. Each line is executed on the real code and on the model
+// (response and ordered action trace compared) and judged by the monitors: a failure anywhere ends in a denial or an
+// error built as the ladder says, never in an OK, a "successful" logout or a redirect without its no-cache headers.
+func singleFaultSweep(r *Run, tag string) {
+	for _, store := range []string{"mem", "redis"} {
+		c := genCfg(r, false, 2)
+		c.Store, c.Abs, c.Idle, c.Disc, c.Logout, c.LogoutPath, c.LogoutURI, c.Access = store, 0, 0, nil, true, "/logout", "https://idp.example.com/logout", true
+		s := newHSim(r, c)
+		c = s.w.cfg
+		gen := func() [4]string {
+			return [4]string{s.uniq("sid"), s.uniq("nonce"), s.uniq("state"), s.uniq("VERIFIER-marker")}
+		}
+		cb := mustURL(c.CallbackURI)
+		for _, kind := range []string{"fresh", "refresh", "callback", "logout", "anonymous"} {
+			for pos := 0; pos < 6; pos++ {
+				for _, mode := range []int{1, 2} {
+					if s.stop || r.unknownViolations() > 0 {
+						s.close()
+						return
+					}
+					faults := make([]int, pos+1)
+					faults[pos] = mode
+					var q hReq
+					switch kind {
+					case "fresh", "logout":
+						iss := simLogin(s, 3600, false)
+						if iss == nil {
+							continue
+						}
+						q = hReq{Scheme: "https", Host: "app.example.com", Path: "/app/page", Cookie: c.cookieName() + "=" + iss.Sid, Gen: gen(), KeysOK: true, IDP: idpAnswer{Kind: "transport"}}
+						if kind == "logout" {
+							q.Path = "/logout"
+						}
+					case "refresh":
+						iss := simLogin(s, 30, true)
+						if iss == nil {
+							continue
+						}
+						s.tick(40 * time.Second)
+						q = hReq{Scheme: "https", Host: "app.example.com", Path: "/app/page", Cookie: c.cookieName() + "=" + iss.Sid, Gen: gen(), KeysOK: true,
+							IDP: idpAnswer{Kind: "body", TokenType: "Bearer", ExpiresIn: i64(300), Access: s.uniq("ACCESS-marker"), Refresh: s.uniq("REFRESH-marker"),
+								ID: mintToken(tokSpec{Mode: "good", Exp: s.w.rig.clock.Now().Unix() + 300, Aud: c.ClientID, Sub: "user", Extra: s.uniq("j")})}}
+					case "callback":
+						q0 := hReq{Scheme: "https", Host: "app.example.com", Path: "/app/deep?x=1", Gen: gen(), KeysOK: true, IDP: idpAnswer{Kind: "transport"}}
+						s.do(q0)
+						iss := s.issued[q0.Gen[0]]
+						if iss == nil {
+							continue
+						}
+						q = hReq{Scheme: cb.Scheme, Host: cb.Host, Path: cb.EscapedPath() + "?code=" + s.uniq("code") + "&state=" + iss.State, Cookie: c.cookieName() + "=" + iss.Sid, Gen: gen(), KeysOK: true,
+							IDP: idpAnswer{Kind: "body", TokenType: "Bearer", ExpiresIn: i64(300), Access: s.uniq("ACCESS-marker"),
+								ID: mintToken(tokSpec{Mode: "good", Exp: s.w.rig.clock.Now().Unix() + 300, Aud: c.ClientID, Nonce: iss.Nonce, Sub: "user", Extra: s.uniq("j")})}}
+					case "anonymous":
+						if pos > 1 {
+							continue
+						}
+						q = hReq{Scheme: "https", Host: "app.example.com", Path: "/app/page", Gen: gen(), KeysOK: true, IDP: idpAnswer{Kind: "transport"}}
+					}
+					q.Faults = faults
+					o := s.do(q)
+					consumed := 0
+					for _, cl := range o.Calls {
+						if cl.Fault != 0 {
+							consumed++
+						}
+					}
+					r.Dist[fmt.Sprintf("fault-sweep:%s:reached=%v", kind, consumed > 0)]++
+					r.Case(fmt.Sprintf("fault-sweep|%s|%s|%d|%d", store, kind, pos, mode))
+				}
+			}
+		}
+		s.close()
+	}
+	_ = tag
 }
